@@ -1,3 +1,4 @@
+import AnsiProofs.Lemmas.RenderStrip
 import AnsiProofs.Props.C18
 import AnsiProofs.Lemmas.Basic
 /-
@@ -1100,6 +1101,33 @@ theorem render_begins {x : AStr} (hg : GroupSettings x) (o re : Bool) : Begins (
         · rw [List.append_assoc]; exact hb _
         · exact hb _
     · rw [if_neg hk]; exact hempty
+
+/-- Boolean form of `Begins` (used to refute it on concrete outputs) -/
+def beginsB (out : Str) : Bool :=
+  out.take 2 == ['\x1b', '['] &&
+  ((out.drop 2).dropWhile (fun c => !Term.isFinal c)).head? == some 'm' &&
+  (Term.params ((out.drop 2).takeWhile (fun c => !Term.isFinal c))).head? == some (some 0)
+
+theorem takeWhile_nonFinal {ps : List Char} (h : ∀ c ∈ ps, Term.isFinal c = false) (rest : List Char) :
+    (ps ++ 'm' :: rest).takeWhile (fun c => !Term.isFinal c) = ps ∧
+    (ps ++ 'm' :: rest).dropWhile (fun c => !Term.isFinal c) = 'm' :: rest := by
+  induction ps with
+  | nil =>
+    have : Term.isFinal 'm' = true := by decide
+    simp [this]
+  | cons c ps ih =>
+    have hc := h c (by simp)
+    have := ih (fun d hd => h d (by simp [hd]))
+    simp [hc, this]
+
+theorem Begins.check {out : Str} (h : Begins out) : beginsB out = true := by
+  obtain ⟨ps, rest, rfl, h1, h2⟩ := h
+  have := takeWhile_nonFinal h1 rest
+  simp [beginsB, this.1, this.2, h2]
+
+theorem eff_eq_alpha {l : List Setting} (h : ∀ s ∈ l, isGroupTxt s.txt = true) :
+    eff l = alpha (settingsToDict l []) := by
+  rw [alpha_settingsToDict h, alpha_nil]; rfl
 
 /-- with an empty table the rendering is the text, preceded by the reset sequence when `reset_start` -/
 theorem render_empty {x : AStr} (h : x.fmts = []) (o rs re : Bool) :
